@@ -404,9 +404,6 @@ class Result:
     def finish(self, known, level="model_checking", require_classes=()):
         os.makedirs(EVID, exist_ok=True)
         os.makedirs(REPLAY, exist_ok=True)
-        for c in require_classes:
-            if self.classes.get(c, 0) == 0:
-                die(f"mandatory coverage class {c!r} is empty for {self.prop}: the check no longer exercises the property")
         new = []
         for clause, rec, extra in self.violations:
             k = match_known(known, self.prop, clause, rec)
@@ -414,6 +411,11 @@ class Result:
                 self.known_hits.setdefault(k["id"], [k, 0])[1] += 1
             else:
                 new.append((clause, rec, extra))
+        if not new:
+            # (with violations to report, an empty class is a consequence of the defect, not a failure of the machinery)
+            for c in require_classes:
+                if self.classes.get(c, 0) == 0:
+                    die(f"mandatory coverage class {c!r} is empty for {self.prop}: the check no longer exercises the property")
         for fid, (k, n) in sorted(self.known_hits.items()):
             print(f"KNOWN-FINDING: property={self.prop} id={fid} hits={n} {k['what']}")
         rc = 0
